@@ -508,7 +508,7 @@ theorem scale_one (c : Content) : c.scale 1 = c := by
   conv => rhs; rw [← List.map_id c]
   apply List.map_congr_left
   intro p _
-  simp [Rat.mul_one]
+  simp
 
 /-- `Reweight(w)` for `w > 0` (for `w ≤ 0` the library returns an error and leaves the store
     unchanged) -/
